@@ -1052,7 +1052,7 @@ func ruleTextlessItemKeepsNestedLists(c *eng.Ctx) {
 func ruleChunkBodyWrittenUnconditionally(c *eng.Ctx) {
 	const R = "R15.15-CHUNK-BODY-UNCONDITIONAL"
 	c.Rule(R, "in rag.(*Chunk).contentToMarkdown (the writer ChunkCollection.ToMarkdownWithOptions uses for every chunk that does not open a new section) and its helpers, the write of the chunk's Text does not stand under a comparison of that Text with another text: the 'skip the text when it equals the section title' test belongs to the writer that has just written the title as a heading; here no heading was written, and a body chunk that repeats its section title (a caption, a running title) would be dropped from the document", 1, 0)
-	fn := c.P.Func("rag.(*Chunk).contentToMarkdown")
+	fn := c.P.FuncExact("rag.(*Chunk).contentToMarkdown") // the writer by this name only: a renamed stand-in is another writer
 	if fn == nil {
 		c.Ok(R, "rag.(*Chunk).contentToMarkdown", token.NoPos, "no such writer: not evaluated")
 		return
@@ -1492,6 +1492,66 @@ func ruleColumnLettersBijective(c *eng.Ctx) {
 		}
 	} else {
 		c.Ok(R, "xlsx.ColumnToIndex", token.NoPos, "no such function: not evaluated")
+	}
+	// the references themselves: CellRef and ParseCellRef are inverse to each other on (column, row)
+	ref := c.P.Func("xlsx.CellRef")
+	parse := c.P.Func("xlsx.ParseCellRef")
+	if ref != nil && parse != nil && len(ref.Params) == 2 && len(parse.Params) == 1 {
+		bad, skipped, n := "", "", 0
+	cells:
+		for col := 0; col < 750; col += 7 {
+			for _, row := range []int{0, 1, 8, 9, 99, 1048575} {
+				want := fmt.Sprintf("%s%d", bijectiveBase26(col), row+1)
+				got, err := eng.NewEvaluator().Call(ref, []any{int64(col), int64(row)}, 0)
+				if err != nil && !err.Panic {
+					skipped = "CellRef: " + err.Msg
+					break cells
+				}
+				n++
+				if g, ok := got.(string); err != nil || !ok || g != want {
+					bad = fmt.Sprintf("CellRef(%d, %d) = %v, the cell is %s", col, row, got, want)
+					break cells
+				}
+				for _, text := range []string{want, strings.ToLower(want)} {
+					back, err := eng.NewEvaluator().Call(parse, []any{text}, 0)
+					if err != nil && !err.Panic {
+						skipped = "ParseCellRef: " + err.Msg
+						break cells
+					}
+					n++
+					t, ok := back.(eng.ETuple)
+					if err != nil || !ok || len(t) != 3 {
+						bad = fmt.Sprintf("ParseCellRef(%q) does not answer", text)
+						break cells
+					}
+					gc, _ := t[0].(int64)
+					gr, _ := t[1].(int64)
+					if t[2] != nil || gc != int64(col) || gr != int64(row) {
+						bad = fmt.Sprintf("ParseCellRef(%q) = (%d, %d, error %v), the cell is column %d, row %d", text, gc, gr, t[2] != nil, col, row)
+						break cells
+					}
+				}
+			}
+		}
+		if bad == "" && skipped == "" {
+			for _, text := range []string{"", "A", "12", "A0", "A-1", "1A", "A1B"} {
+				back, err := eng.NewEvaluator().Call(parse, []any{text}, 0)
+				if err != nil && !err.Panic {
+					skipped = "ParseCellRef: " + err.Msg
+					break
+				}
+				n++
+				if t, ok := back.(eng.ETuple); err == nil && ok && len(t) == 3 && t[2] == nil {
+					bad = fmt.Sprintf("ParseCellRef(%q) is accepted as column %v, row %v: it is not a cell reference", text, t[0], t[1])
+					break
+				}
+			}
+		}
+		if skipped != "" {
+			c.Ok(R, "xlsx.CellRef", ref.Pos(), "not evaluated: "+skipped)
+		} else {
+			c.Check(bad == "", R, "xlsx.CellRef#round-trip", ref.Pos(), fmt.Sprintf("%d references evaluated", n), "cell references and (column, row) pairs are not inverse to each other ("+bad+"): a value is put at another position than its reference names")
+		}
 	}
 }
 
